@@ -184,6 +184,7 @@ func genC19(env *core.Env, emit func(core.Case)) {
 				portS = ""
 			}
 			hostHdr := ""
+			emptyHost := r.IntN(4) == 0
 			if r.IntN(6) == 0 {
 				hostHdr = "front." + host
 			}
@@ -210,6 +211,8 @@ func genC19(env *core.Env, emit func(core.Case)) {
 				req, _ = http.NewRequest("GET", rawURL, nil)
 				if hostHdr != "" {
 					req.Host = hostHdr
+				} else if emptyHost {
+					req.Host = "" // a request built as a literal, or by a reverse proxy: the authority is the URL's
 				}
 				if enum {
 					resp, err = clientEnum.Do(req)
